@@ -167,6 +167,11 @@ impl StructureMember {
         }? as *const u8;
 
         let offset = addr as isize - base_entity_addr as isize;
+        // the member must lie inside the bytes fetched for its parent (the parent of a value kept in
+        // a register is shorter than its type says)
+        if offset < 0 || (offset as usize).saturating_add(type_size) > base_data.raw_data.len() {
+            return None;
+        }
         let new_in_debugee_addr = base_data
             .address
             .map(|addr| (addr as isize + offset) as usize);
